@@ -299,6 +299,11 @@ impl Prop for C34 {
             "an overflow that needs a shape or operation outside the catalogue is not found".into(),
         ]
     }
+    fn case_timeout_s(&self, _tier: Tier) -> u64 {
+        // a case is a child process with its own time budget (300 s / 900 s, counted as a discard when
+        // exceeded): the engine's per-case hang detection must stay well above that
+        2000
+    }
     fn watchdog_s(&self, tier: Tier) -> u64 {
         tier.pick(7200, 28800)
     }
